@@ -84,6 +84,21 @@ def make_req(cls_, id_, payload, resp):
                     raise ValueError
 
         RESP_CLASSES[(cls_, id_, minlen)] = Resp
+    if resp.isdigit() and zlib.crc32(bytes([cls_, id_]) + bytes(payload)) % 4 == 0:
+
+        class G(UbxFrame):             # a generic request class: the class/id is set on the instance
+            NAME = 'req'
+
+            def __init__(self):
+                super().__init__()
+                self.CID = UbxCID(cls_, id_)
+
+            def pack(self):
+                self.data = bytearray(payload)
+
+            def _cls_response(self):
+                return Resp
+        return G()
     if resp.isdigit():
 
         class R(UbxFrame):
@@ -549,6 +564,7 @@ class Link:
         self.buf = bytearray(buffered)
         self.sent, self.tx_trace = [], []
         self.rates = []                 # tty: the bit rate the port was at for each transmission
+        self.data_reads, self.eof_seen = 0, False          # gpsd: reads of the data socket so far; whether the connection was closed
         self.nested = False             # a transmission made from inside a back-end hook (see Traced): not an attempt of the request
         self.nested_sent = []
         self.cur = req_index
@@ -637,6 +653,9 @@ class Traced:
     def _recover(self):
         self.calls += 'v'
         self.nested_activity('recover')
+        if self.link.sc.get('backoff'):
+            # a back end that backs off: every recovery doubles the retry delay of the server it belongs to (up to the setter's limit)
+            self.set_retry_delay(min(5000, self.retry_delay_in_ms * 2))
         return super()._recover()
 
     def _flush_input(self):
@@ -674,6 +693,15 @@ class LinkSrv(sb.UbxServerBase_):
         pass
 
     def _flush_input(self):
+        if self.link.sc.get('drainflush'):
+            # a back end that "flushes" by reading what is waiting and handing it to the parser (a bridge transport, a reader thread
+            # that got there first): whatever that queues was decoded BEFORE the transmission that follows
+            self.link.arrive()
+            data = bytes(self.link.buf)
+            self.link.buf.clear()
+            if data:
+                self.parser.process(data)
+            return
         self.link.drop()
 
     def _transmit(self, data):
@@ -767,6 +795,14 @@ class LinkSockets:
                 return r
             if self.hello:
                 return self.hello.pop(0)
+            link = LinkSockets.link
+            if getattr(self, 'eof', False) or (link.sc.get('eof') is not None and link.data_reads >= link.sc['eof'] and not link.eof_seen):
+                # gpsd closed THIS connection (the daemon was restarted): every read of it returns nothing at once, for good; a socket
+                # opened afterwards is a new connection
+                self.eof = link.eof_seen = True
+                CLK.ticks += 1
+                return b''
+            link.data_reads += 1
             t = self.t if self.t is not None else 1000
             data = LinkSockets.link.read(n, max(1, int(t * 1024)))
             if data is None:
@@ -850,6 +886,7 @@ def run_sequence(sc):
                         {'kind': 'poll', 'cid': [10, 9], 'payload': '', 'resp': '0', 'tx': [True], 'timelines': [[(2, frame(10, 9, b'\x01\x02\x03').hex())]]}]}
         other = new_server(osc, fresh_factory=False)
     outs, starts, per_req, ends = [], [], [], []
+    prev_obj = None
     keeps = sc.get('backend') == 'gpsd'     # the gpsd back end has no way to drop what its socket has buffered (R-gpsd-flush)
     for i, r in enumerate(sc['reqs']):
         if other is not None:
@@ -857,9 +894,17 @@ def run_sequence(sc):
             other.link.begin(k)
             call(other, other.link.sc['reqs'][k]['kind'], req_of(other.link.sc['reqs'][k]))
         s.link.arrive()
-        starts.append((CLK.ticks, list(s.link.pending), len(s.sent), len(s.rx_trace), len(s.calls), bytes(s.link.buf) if keeps else b''))
+        starts.append((CLK.ticks, list(s.link.pending), len(s.sent), len(s.rx_trace), len(s.calls), bytes(s.link.buf) if keeps else b'',
+                       s.link.data_reads))
         s.link.begin(i)
-        outs.append(call(s, r['kind'], req_of(r)))
+        if r.get('retarget') and prev_obj is not None:
+            # ONE scratch frame object re-pointed at another message between two requests (frame.CID = …), payload as it was
+            req = prev_obj
+            req.CID = UbxCID(*r['cid'])
+        else:
+            req = req_of(r)
+        prev_obj = req
+        outs.append(call(s, r['kind'], req))
         ends.append(CLK.ticks)
     s.ends = ends
     for i in range(len(sc['reqs'])):
@@ -875,6 +920,7 @@ def run_alone(sc, i, start):
     tick, pending = start[0], start[1]
     CLK.ticks = tick
     s = new_server(sc, req_index=i, pending=pending, buffered=start[5])
+    s.link.data_reads = start[6]            # (a connection that gpsd has closed, or is about to close, is the transport's state, not the server's)
     s.link.begin(i)
     out = call(s, sc['reqs'][i]['kind'], req_of(sc['reqs'][i]))
     return out, list(s.sent), list(s.link.rates)
@@ -891,8 +937,8 @@ def real_seqs(line):
 def model_line_seqs(line):
     """the recorded back-end trace as the model's environment"""
     sc = json.loads(line.split('|', 1)[1])
-    if sc.get('boom') or sc.get('txtime'):
-        return 'no-model'              # (the model's transmissions take no time)
+    if sc.get('boom') or sc.get('txtime') or sc.get('backoff'):
+        return 'no-model'              # (the model's transmissions take no time, its settings do not change under way)
     s, outs, starts, per_req = run_sequence(sc)
     return '|'.join(['seq', str(sc['retries']), str(sc['delay']), ','.join('1' if t else '0' for t in s.tx_trace),
                      ','.join(f'{dt}:{d.hex()}' for dt, d in s.rx_trace),
@@ -1071,18 +1117,29 @@ def gen_c06(rng):
     need = -(-len(body) // chunk) + 3
     if need + 2 >= dticks:
         return None
-    off = rng.randrange(1, dticks - need)
+    backoff = K >= 2 and all(tx) and rng.random() < 0.2 and delay * 2 ** (K - 1) <= 5000
+    if backoff:
+        # every failed attempt was followed by a recovery that doubled the delay: the K-th attempt waits delay * 2**(K-1), and the
+        # answer comes later than the delay the request started with
+        now = dticks * 2 ** (K - 1)
+        if dticks + 2 >= now - need:
+            return None
+        off = rng.randrange(dticks + 1, now - need)
+    else:
+        off = rng.randrange(1, dticks - need)
     if rng.random() < 0.4:
         # split the arrival in two: however the bytes are split across reads
         cut = rng.randrange(1, len(body))
-        gapt = rng.randrange(0, max(1, dticks - need - off))
+        gapt = rng.randrange(0, max(1, (dticks * 2 ** (K - 1) if backoff else dticks) - need - off))
         tl = [(off, body[:cut].hex()), (off + gapt, body[cut:].hex())]
     else:
         tl = [(off, body.hex())]
     timelines.append(tl)
     expect = [K, f'{acid[0]}/{acid[1]}:{tag}:{apl.hex()}']
     nested = {}
-    if rng.random() < 0.15:
+    if backoff:
+        nested = {'backoff': True}
+    elif rng.random() < 0.15:
         nested = {'txtime': rng.choice([1, dticks // 4, dticks // 2, dticks - 1, dticks, 2 * dticks])}
     elif rng.random() < 0.15:
         nested = {'nested': {'req': len(history), 'at': rng.choice([1, 2, 3, 4, 6]), 'where': rng.choice(['receive', 'receive', 'recover'])}}
@@ -1140,11 +1197,22 @@ def gen_sequence(rng):
             earlier.append((cls_, id_, minlen))
         if rng.random() < 0.15 and len(reqs) < 6:
             reqs.append(json.loads(json.dumps(reqs[-1])))      # the same request once more, the receiver answering byte for byte the same
+        elif rng.random() < 0.1 and len(reqs) < 6 and kind in ('set', 'faf'):
+            # the same request OBJECT re-pointed at another class/id, same payload
+            again = json.loads(json.dumps(reqs[-1]))
+            again['cid'] = list(pick_req_cid(rng, REQ_CIDS[:4]))
+            again['retarget'] = True
+            again['timelines'] = [[(off, frame(5, 1, again['cid']).hex() if rng.random() < .6 else h) for off, h in tl] for tl in again['timelines']]
+            reqs.append(again)
     sc = {'retries': retries, 'delay': delay, 'chunk': chunk, 'timeout': timeout, 'backend': pick_backend(rng, chunk, timeout), 'reqs': reqs}
     if sc['backend'] == 'tty' and rng.random() < 0.5:
         sc['baud'] = rng.choice(BAUDS)          # the line speed was switched after the port was opened
     if rng.random() < 0.2:
         sc['bystander'] = True
+    if sc['backend'] == 'base' and rng.random() < 0.2:
+        sc['drainflush'] = True
+    if sc['backend'] == 'gpsd' and rng.random() < 0.2:
+        sc['eof'] = rng.choice([0, 1, 2, 3, 5, 8])
     if rng.random() < 0.15:
         sc['background'] = [rng.choice([50, 100, 200, 250]), rng.choice([frame(1, 7, rand_payload(rng, 8)), b'$GPGGA,1,2*33\r\n', frame(0x10, 2, rand_payload(rng, 4))]).hex()]
     if rng.random() < 0.08:
@@ -1522,7 +1590,15 @@ def gen_scan1(rng, n, profile):
         stream = bytearray()
         for _ in range(rng.randrange(0, 6)):
             k = rng.random()
-            if k < .35:
+            if k < .06:
+                # text inside binary and binary inside text: a frame whose payload quotes a complete valid sentence (INF-NOTICE,
+                # LOG-STRING), a sentence whose body holds a frame's bytes
+                import comp_parsers
+                quoted = rng.choice([nm, b'$GPGGA,1*52\r\n', comp_parsers.long_sentence(rng)])
+                stream += frame(4, 2, quoted) if rng.random() < .7 else frame(4, 2, b'note: ' + quoted + b' end')
+                if rng.random() < .5:
+                    stream += frame(1, 7, b'abcd')
+            elif k < .35:
                 stream += frame(rng.choice([1, 5, 6]), rng.randrange(4), bytes(rng.randrange(256) for _ in range(rng.choice([0, 2, 8]))))
             elif k < .45:
                 stream += nm if rng.random() < .8 else b'$GP*18\r\n'
